@@ -132,6 +132,48 @@ theorem rw_refines_log (size interval : Nat) (hs : 1 ≤ size) (hi : 1 ≤ inter
   simp only [Spec.visible, RW.new]
   congr
 
+/-- **The property in its own words**: under the same hypotheses, the values `Reduce` visits are exactly the
+values added during the last `size` intervals — ages `size-1 … 0` — or `size-1 … 1` when the current interval
+is ignored (bucket by bucket, arrival order inside a bucket). -/
+theorem rw_reduce_visits_last_intervals (size interval : Nat) (hs : 1 ≤ size) (hi : 1 ≤ interval) (ign : Bool) (t0 : Nat)
+    (evs : List (Nat × Nat)) (hmono : List.Pairwise (· ≤ ·) (t0 :: evs.map (·.1)))
+    (now : Nat) (hnow : ∀ t, t ∈ t0 :: evs.map (·.1) → t ≤ now) :
+    (((RW.new size interval ign t0).run evs).reduce now).flatten
+      = (Spec.lastIntervals size ign t0 interval evs now).flatten := by
+  rw [rw_refines_log size interval hs hi ign t0 evs hmono now hnow]
+  simp only [List.pairwise_cons] at hmono
+  have h0 := RW.rep_new size interval ign t0 hs hi
+  obtain ⟨r1, _, r3, _, r5⟩ := RW.run_rep t0 evs (RW.new size interval ign t0) [] 0 h0
+    (by simp [Spec.lastIdx]) hmono.2
+    (fun e he => hmono.1 e.1 (List.mem_map_of_mem (f := (·.1)) he))
+    now (hnow t0 (by simp)) (fun e he => hnow e.1 (by simp only [List.mem_cons]; exact Or.inr (List.mem_map_of_mem (f := (·.1)) he)))
+  have hb := r1.bound
+  have hlast := r1.last
+  rw [r3] at hb hlast
+  simp only [RW.new, List.nil_append] at hb hlast r5
+  rw [hlast] at r5
+  have hcl := (span_arith t0 interval _ now hi r5).2.1
+  simp only [Spec.visible, Spec.lastIntervals]
+  generalize Spec.idx t0 interval now = c at hcl ⊢
+  generalize Spec.lastIdx t0 interval evs = L at hb hcl ⊢
+  cases ign with
+  | false =>
+    simp only [Bool.false_eq_true, and_false, if_false]
+    have := agesDown_flatten_skip size (Spec.contentsAge t0 interval evs c) (c - L) 0 (fun a h1 h2 =>
+      contentsAge_empty t0 interval evs L c a hb (by omega))
+    rw [Nat.zero_add] at this
+    exact this.symm
+  | true =>
+    simp only [and_true, if_true]
+    by_cases hc : c = L
+    · simp [hc]
+    · simp only [hc, if_false]
+      have := agesDown_flatten_skip size (Spec.contentsAge t0 interval evs c) (c - L - 1) 1 (fun a h1 h2 =>
+        contentsAge_empty t0 interval evs L c a hb (by omega))
+      have e : 1 + (c - L - 1) = c - L := by omega
+      rw [e] at this
+      exact this.symm
+
 /-- window spans of exactly size-1 / size / size+1 buckets (size 3, interval 10, t0 = 5): additions in
 intervals 0, 1, 2; reduce in interval 2 (all three), 3 (two left), 4 (one left), 5 (none) -/
 example : ((RW.new 3 10 false 5).run [(5, 1), (14, 2), (15, 3), (25, 4)]).reduce 34 = [[1, 2], [3], [4]]
